@@ -2,6 +2,7 @@ import Mathlib.Data.List.Perm.Subperm
 import Mathlib.Tactic.Ring
 import Mathlib.Tactic.Linarith
 import PdfVerif.Model.Layout
+import PdfVerif.Lemmas.Layout
 
 namespace PdfVerif.Layout
 open PdfVerif PdfVerif.Gen.Layout
@@ -433,5 +434,332 @@ theorem groupTextboxes_fuel (pageBB : BB) (boxes : List Box) : (groupTextboxes p
   simp only [groupTextboxes]
   rw [gtbLoop_terminates _ _ (gtbInit_inv pageBB boxes) (gtbInit_phi pageBB boxes)]
   rfl
+
+
+/-! ### conservation in `group_textboxes` -/
+
+theorem iter_remove (p : Plane.Plane) (o : Plane.PObj) (hn : p.objs.Nodup) :
+    Plane.iter (Plane.remove p o).1 = (Plane.iter p).filter (fun x => x.id != o.id) := by
+  simp only [Plane.iter, remove_seq, remove_objs, List.filter_filter]
+  apply List.filter_congr
+  intro x _
+  by_cases h : x.id = o.id
+  · have : o.id ∉ p.objs.erase o.id := fun hc => ((hn.mem_erase_iff).mp hc).1 rfl
+    simp [h, this]
+  · simp [h, List.mem_erase_of_ne h]
+
+theorem remove_ok (p : Plane.Plane) (o : Plane.PObj) (h : o.id ∈ p.objs) : (Plane.remove p o).2 = true := by
+  unfold Plane.remove
+  split
+  · rfl
+  · contradiction
+
+theorem iter_add (p : Plane.Plane) (o : Plane.PObj) (h1 : o.id ∉ p.objs) (h2 : ∀ x ∈ p.seq, x.id ≠ o.id) :
+    Plane.iter (Plane.add p o) = Plane.iter p ++ [o] := by
+  simp only [Plane.iter, add_seq, add_objs, if_neg h1, List.filter_append]
+  congr 1
+  · apply List.filter_congr
+    intro x hx
+    simp [h2 x hx]
+  · simp
+
+theorem perm_extract {l : List Plane.PObj} (hn : (l.map (·.id)).Nodup) {x : Plane.PObj} (hx : x ∈ l) :
+    l.Perm (x :: l.filter (fun y => y.id != x.id)) := by
+  induction l with
+  | nil => simp at hx
+  | cons a r ih =>
+    simp only [List.map_cons, List.nodup_cons, List.mem_map, not_exists, not_and] at hn
+    simp only [List.mem_cons] at hx
+    rcases hx with rfl | hx
+    · have : r.filter (fun y => y.id != x.id) = r := by
+        apply List.filter_eq_self.mpr
+        intro y hy
+        have := hn.1 y hy
+        simpa [bne_iff_ne] using this
+      simp [List.filter_cons, this]
+    · have hax : a.id ≠ x.id := fun h => hn.1 x hx h.symm
+      have := ih hn.2 hx
+      simp only [List.filter_cons, bne_iff_ne, ne_eq, hax, not_false_eq_true, ite_true]
+      exact (List.Perm.cons a this).trans (List.Perm.swap _ _ _)
+
+inductive NodeWF : Node → Prop
+  | leaf (b : Box) : NodeWF (.leaf b)
+  | grp (t : Bool) (bb : BB) (l r : Node) : NodeWF l → NodeWF r → bb = l.bb.union r.bb →
+      t = (l.isVert || r.isVert) → NodeWF (.grp t bb l r)
+
+def liveNodes (s : GState) : List Node := (Plane.iter s.plane).filterMap (fun o => s.nodes[o.id]?)
+
+structure CInv (boxes : List Box) (s : GState) : Prop where
+  inv : GInv s
+  heapLt : ∀ e ∈ s.heap, e.id1 < s.nodes.length ∧ e.id2 < s.nodes.length
+  liveIn : ∀ k, k < s.nodes.length → k ∉ s.done → ∃ x ∈ Plane.iter s.plane, x.id = k
+  noErr : s.err = false
+  wf : ∀ n ∈ s.nodes, NodeWF n
+  leaves : ((liveNodes s).flatMap Node.leaves).Perm boxes
+
+theorem filterMap_lookup_append {l : List Plane.PObj} {nodes : List Node} (g : Node)
+    (h : ∀ x ∈ l, x.id < nodes.length) :
+    l.filterMap (fun o => (nodes ++ [g])[o.id]?) = l.filterMap (fun o => nodes[o.id]?) := by
+  apply List.filterMap_congr
+  intro x hx
+  exact List.getElem?_append_left (h x hx)
+
+theorem gtbStep_cinv {boxes : List Box} {s s' : GState} (hc : CInv boxes s) (h : gtbStep s = some s') :
+    CInv boxes s' := by
+  have hinv' := (gtbStep_inv hc.inv h).1
+  have hi := hc.inv
+  unfold gtbStep at h
+  cases hp : popMin s.heap with
+  | none => rw [hp] at h; simp at h
+  | some pr =>
+    obtain ⟨e, heap⟩ := pr
+    rw [hp] at h
+    simp only at h
+    have hperm := popMin_perm _ _ _ hp
+    have hsub : ∀ x ∈ heap, x ∈ s.heap := fun x hx => hperm.symm.subset (List.mem_cons_of_mem _ hx)
+    have he : e ∈ s.heap := hperm.symm.subset (List.mem_cons_self)
+    split at h
+    · simp only [Option.some.injEq] at h
+      subst h
+      exact ⟨hinv', fun x hx => hc.heapLt x (hsub x hx), hc.liveIn, hc.noErr, hc.wf, hc.leaves⟩
+    · rename_i hlive
+      split at h
+      · rename_i n1 n2 hn1 hn2
+        split at h
+        · simp only [Option.some.injEq] at h
+          subst h
+          refine ⟨hinv', ?_, hc.liveIn, hc.noErr, hc.wf, hc.leaves⟩
+          intro x hx
+          simp only [List.mem_append, List.mem_singleton] at hx
+          rcases hx with hx | rfl
+          · exact hc.heapLt x (hsub x hx)
+          · exact hc.heapLt e he
+        · simp only [Option.some.injEq] at h
+          subst h
+          have hl1 : e.id1 < s.nodes.length := (List.getElem?_eq_some_iff.mp hn1).1
+          have hl2 : e.id2 < s.nodes.length := (List.getElem?_eq_some_iff.mp hn2).1
+          have hlive' : e.id1 ∉ s.done ∧ e.id2 ∉ s.done := by
+            simpa [live] using hlive
+          have hne : e.id1 ≠ e.id2 := hi.heapNe e he
+          obtain ⟨o1, ho1, hid1⟩ := hc.liveIn e.id1 hl1 hlive'.1
+          obtain ⟨o2, ho2, hid2⟩ := hc.liveIn e.id2 hl2 hlive'.2
+          have hnd1 : (Plane.remove s.plane (nodePObj e.id1 n1)).1.objs.Nodup := by
+            rw [remove_objs]; exact hi.objsNodup.erase _
+          have hiter2 : Plane.iter (Plane.remove (Plane.remove s.plane (nodePObj e.id1 n1)).1 (nodePObj e.id2 n2)).1
+              = ((Plane.iter s.plane).filter (fun x => x.id != e.id1)).filter (fun x => x.id != e.id2) := by
+            rw [iter_remove _ _ hnd1, iter_remove _ _ hi.objsNodup]; rfl
+          set p2 := (Plane.remove (Plane.remove s.plane (nodePObj e.id1 n1)).1 (nodePObj e.id2 n2)).1 with hp2
+          have hseq2 : p2.seq = s.plane.seq := by rw [hp2, remove_seq, remove_seq]
+          have hobjs2 : p2.objs = (s.plane.objs.erase e.id1).erase e.id2 := by
+            rw [hp2, remove_objs, remove_objs]; rfl
+          have hgid1 : (nodePObj s.nodes.length (Node.grp (n1.isVert || n2.isVert) (n1.bb.union n2.bb) n1 n2)).id ∉ p2.objs := by
+            intro hk
+            rw [hobjs2] at hk
+            have h1 := ((hi.objsNodup.erase e.id1).mem_erase_iff).mp hk
+            have h2 := (hi.objsNodup.mem_erase_iff).mp h1.2
+            exact Nat.lt_irrefl _ (hi.objsLt _ h2.2)
+          have hgid2 : ∀ x ∈ p2.seq, x.id ≠ (nodePObj s.nodes.length (Node.grp (n1.isVert || n2.isVert) (n1.bb.union n2.bb) n1 n2)).id := by
+            intro x hx
+            rw [hseq2] at hx
+            exact Nat.ne_of_lt (hi.seqLt x hx)
+          have hiter3 := iter_add p2 _ hgid1 hgid2
+          have hiterNodup : ((Plane.iter s.plane).map (·.id)).Nodup :=
+            List.Nodup.sublist (List.Sublist.map _ List.filter_sublist) hi.seqNodup
+          have ho1id : e.id1 ∈ s.plane.objs := by
+            simpa [hid1] using (mem_iter ho1).2
+          have ho2id : e.id2 ∈ s.plane.objs.erase e.id1 := by
+            rw [(hi.objsNodup.mem_erase_iff)]
+            exact ⟨hne.symm, by simpa [hid2] using (mem_iter ho2).2⟩
+          refine ⟨hinv', ?_, ?_, ?_, ?_, ?_⟩
+          · intro x hx
+            simp only [List.mem_append, List.mem_map] at hx
+            simp only [List.length_append, List.length_singleton]
+            rcases hx with hx | ⟨o, ho, rfl⟩
+            · have := hc.heapLt x (hsub x hx); omega
+            · have := (mem_iter ho).1
+              rw [hseq2] at this
+              have := hi.seqLt o this
+              simp only; omega
+          · intro k hk hkd
+            simp only [List.length_append, List.length_singleton] at hk
+            simp only [List.mem_cons, not_or] at hkd
+            rw [hiter3]
+            by_cases hkn : k = s.nodes.length
+            · exact ⟨nodePObj s.nodes.length (Node.grp (n1.isVert || n2.isVert) (n1.bb.union n2.bb) n1 n2),
+                List.mem_append_right _ (List.mem_singleton_self _), by simp [nodePObj, hkn]⟩
+            · obtain ⟨x, hx, hxid⟩ := hc.liveIn k (by omega) hkd.2.2
+              refine ⟨x, ?_, hxid⟩
+              rw [hiter2]
+              simp only [List.mem_append, List.mem_filter, bne_iff_ne, ne_eq]
+              exact Or.inl ⟨⟨hx, by rw [hxid]; exact hkd.2.1⟩, by rw [hxid]; exact hkd.1⟩
+          · -- no KeyError
+            have e1 : (Plane.remove s.plane (nodePObj e.id1 n1)).2 = true := remove_ok _ _ ho1id
+            have e2 : (Plane.remove (Plane.remove s.plane (nodePObj e.id1 n1)).1 (nodePObj e.id2 n2)).2 = true := by
+              apply remove_ok
+              rw [remove_objs]; exact ho2id
+            simp [hc.noErr, e1, e2]
+          · intro n hn
+            simp only [List.mem_append, List.mem_singleton] at hn
+            rcases hn with hn | rfl
+            · exact hc.wf n hn
+            · exact NodeWF.grp _ _ _ _ (hc.wf n1 (List.mem_of_getElem? hn1)) (hc.wf n2 (List.mem_of_getElem? hn2)) rfl rfl
+          · -- the leaves of the live nodes are still the input boxes
+            have hstep : liveNodes
+                { heap := heap ++ List.map (fun o => ({ skip := false, d := dist (Node.grp (n1.isVert || n2.isVert) (n1.bb.union n2.bb) n1 n2).bb (pobjBB o), id1 := s.nodes.length, id2 := o.id } : HEntry)) (Plane.iter p2),
+                  plane := Plane.add p2 (nodePObj s.nodes.length (Node.grp (n1.isVert || n2.isVert) (n1.bb.union n2.bb) n1 n2)),
+                  done := e.id2 :: e.id1 :: s.done,
+                  nodes := s.nodes ++ [Node.grp (n1.isVert || n2.isVert) (n1.bb.union n2.bb) n1 n2],
+                  tie := s.tie || heap.any (fun e' => e'.skip == e.skip && e'.d == e.d && live s e'),
+                  err := s.err || !(Plane.remove s.plane (nodePObj e.id1 n1)).2 || !(Plane.remove (Plane.remove s.plane (nodePObj e.id1 n1)).1 (nodePObj e.id2 n2)).2 }
+                = (((Plane.iter s.plane).filter (fun x => x.id != e.id1)).filter (fun x => x.id != e.id2)).filterMap (fun o => s.nodes[o.id]?)
+                  ++ [Node.grp (n1.isVert || n2.isVert) (n1.bb.union n2.bb) n1 n2] := by
+              simp only [liveNodes]
+              rw [hiter3, hiter2, List.filterMap_append]
+              congr 1
+              · apply filterMap_lookup_append
+                intro x hx
+                simp only [List.mem_filter] at hx
+                exact hi.seqLt x (mem_iter hx.1.1).1
+              · simp [nodePObj]
+            rw [hstep]
+            refine List.Perm.trans ?_ hc.leaves
+            -- extract o1 and o2 from the old iteration
+            have p1 := perm_extract hiterNodup ho1
+            have ho2' : o2 ∈ (Plane.iter s.plane).filter (fun y => y.id != o1.id) := by
+              simp only [List.mem_filter, bne_iff_ne, ne_eq]
+              exact ⟨ho2, by rw [hid1, hid2]; exact hne.symm⟩
+            have hnd' : (((Plane.iter s.plane).filter (fun y => y.id != o1.id)).map (·.id)).Nodup :=
+              List.Nodup.sublist (List.Sublist.map _ List.filter_sublist) hiterNodup
+            have p2' := perm_extract hnd' ho2'
+            have pall : (Plane.iter s.plane).Perm
+                (o1 :: o2 :: ((Plane.iter s.plane).filter (fun x => x.id != e.id1)).filter (fun x => x.id != e.id2)) := by
+              rw [← hid1, ← hid2]
+              exact p1.trans (List.Perm.cons _ p2')
+            have hl : (liveNodes s).Perm (n1 :: n2 ::
+                (((Plane.iter s.plane).filter (fun x => x.id != e.id1)).filter (fun x => x.id != e.id2)).filterMap (fun o => s.nodes[o.id]?)) := by
+              have := List.Perm.filterMap (fun o => s.nodes[o.id]?) pall
+              simpa [liveNodes, List.filterMap_cons, hid1, hid2, hn1, hn2] using this
+            have := flatMap_perm Node.leaves hl
+            refine List.Perm.trans ?_ this.symm
+            simp only [List.flatMap_append, List.flatMap_cons, List.flatMap_nil, Node.leaves, List.append_nil]
+            refine List.perm_append_comm.trans ?_
+            simp [List.append_assoc]
+      · -- a heap entry names a node that does not exist: impossible
+        rename_i hnone
+        have := hc.heapLt e he
+        exfalso
+        have h1 : ∃ n, s.nodes[e.id1]? = some n := ⟨s.nodes[e.id1], List.getElem?_eq_getElem this.1⟩
+        have h2 : ∃ n, s.nodes[e.id2]? = some n := ⟨s.nodes[e.id2], List.getElem?_eq_getElem this.2⟩
+        obtain ⟨a, ha⟩ := h1
+        obtain ⟨b, hb⟩ := h2
+        exact hnone a b ha hb
+
+theorem gtbLoop_cinv {boxes : List Box} : ∀ (fuel : Nat) (s : GState), CInv boxes s → CInv boxes (gtbLoop fuel s).1
+  | 0, s, h => by simpa [gtbLoop] using h
+  | fuel + 1, s, h => by
+    simp only [gtbLoop]
+    cases hs : gtbStep s with
+    | none => exact h
+    | some s' => exact gtbLoop_cinv fuel s' (gtbStep_cinv h hs)
+
+theorem foldl_add_objs_mem (objs : List Plane.PObj) : ∀ (p : Plane.Plane) (k : Nat),
+    (k ∈ p.objs ∨ k ∈ objs.map (·.id)) → k ∈ (objs.foldl Plane.add p).objs := by
+  induction objs with
+  | nil => intro p k h; simpa using h
+  | cons o r ih =>
+    intro p k h
+    simp only [List.foldl_cons]
+    apply ih
+    simp only [List.map_cons, List.mem_cons] at h
+    rw [add_objs]
+    rcases h with h | h | h
+    · left; split
+      · exact h
+      · exact List.mem_append_left _ h
+    · left; subst h; split
+      · assumption
+      · simp
+    · exact Or.inr h
+
+theorem initPairs_lt (bbs : List BB) : ∀ e ∈ initPairs bbs, e.id1 < bbs.length ∧ e.id2 < bbs.length := by
+  intro e he
+  unfold initPairs at he
+  simp only [List.mem_flatMap, List.mem_map, List.mem_filter, decide_eq_true_eq] at he
+  obtain ⟨x, hx, y, ⟨hy, _⟩, rfl⟩ := he
+  have h1 := List.mem_zipIdx (x := x.1) (i := x.2) hx
+  have h2 := List.mem_zipIdx (x := y.1) (i := y.2) hy
+  exact ⟨by simpa using h1.2.1, by simpa using h2.2.1⟩
+
+theorem zipIdx_lookup {α β : Type} (l : List α) (g : α → β) (f : α → Nat → Plane.PObj)
+    (hf : ∀ x i, (f x i).id = i) :
+    (l.zipIdx.map fun (x : α × Nat) => f x.1 x.2).filterMap (fun o => (l.map g)[o.id]?) = l.map g := by
+  rw [List.filterMap_map]
+  have : ∀ p ∈ l.zipIdx, ((fun o : Plane.PObj => (l.map g)[o.id]?) ∘ fun (x : α × Nat) => f x.1 x.2) p = some (g p.1) := by
+    intro p hp
+    have h := List.mem_zipIdx (x := p.1) (i := p.2) hp
+    simp only [Function.comp, hf, List.getElem?_map]
+    have hlt : p.2 < l.length := by simpa using h.2.1
+    rw [List.getElem?_eq_getElem hlt]
+    simp only [Option.map_some, Option.some.injEq]
+    congr 1
+    simpa using h.2.2.symm
+  rw [List.filterMap_congr this]
+  have h2 : (fun p : α × Nat => some (g p.1)) = some ∘ (g ∘ Prod.fst) := rfl
+  rw [h2, List.filterMap_eq_map, ← List.map_map, List.zipIdx_map_fst]
+
+theorem gtbInit_cinv (pageBB : BB) (boxes : List Box) : CInv boxes (gtbInit pageBB boxes) := by
+  have hseq := mkPlane_seq pageBB (boxes.zipIdx.map fun (x : Box × Nat) => nodePObj x.2 (.leaf x.1))
+  have hids := zipIdx_ids boxes
+  have hall : ∀ x ∈ (boxes.zipIdx.map fun (x : Box × Nat) => nodePObj x.2 (Node.leaf x.1)),
+      x.id ∈ (mkPlane pageBB (boxes.zipIdx.map fun (x : Box × Nat) => nodePObj x.2 (.leaf x.1))).objs := by
+    intro x hx
+    unfold mkPlane
+    apply foldl_add_objs_mem
+    exact Or.inr (List.mem_map_of_mem hx)
+  have hiter : Plane.iter (gtbInit pageBB boxes).plane = boxes.zipIdx.map fun (x : Box × Nat) => nodePObj x.2 (.leaf x.1) := by
+    show Plane.iter (mkPlane pageBB _) = _
+    unfold Plane.iter
+    rw [hseq]
+    apply List.filter_eq_self.mpr
+    intro x hx
+    simpa using hall x hx
+  refine ⟨gtbInit_inv pageBB boxes, ?_, ?_, rfl, ?_, ?_⟩
+  · intro e he
+    have := initPairs_lt _ e he
+    simpa [gtbInit] using this
+  · intro k hk _
+    rw [hiter]
+    have : k ∈ List.range' 0 boxes.length := by
+      simp only [gtbInit, List.length_map] at hk
+      exact List.mem_range'_1.mpr ⟨by omega, by omega⟩
+    rw [← hids] at this
+    simp only [List.mem_map] at this
+    obtain ⟨x, hx, rfl⟩ := this
+    exact ⟨x, by simpa using hx, rfl⟩
+  · intro n hn
+    simp only [gtbInit, List.mem_map] at hn
+    obtain ⟨b, _, rfl⟩ := hn
+    exact NodeWF.leaf b
+  · have : liveNodes (gtbInit pageBB boxes) = boxes.map Node.leaf := by
+      unfold liveNodes
+      rw [hiter]
+      exact zipIdx_lookup boxes Node.leaf (fun b i => nodePObj i (.leaf b)) (fun _ _ => rfl)
+    rw [this, List.flatMap_map]
+    simp [Node.leaves]
+
+/-- `group_textboxes`: the loop ends within the fuel, no `KeyError`, every input box is a leaf of
+exactly one returned node, every group's box is the union of its two members' boxes and its
+class is TBRL iff a member is vertical. -/
+theorem groupTextboxes_spec (pageBB : BB) (boxes : List Box) :
+    ((groupTextboxes pageBB boxes).1.flatMap Node.leaves).Perm boxes
+    ∧ (∀ n ∈ (groupTextboxes pageBB boxes).1, NodeWF n)
+    ∧ (groupTextboxes pageBB boxes).2.err = false
+    ∧ (groupTextboxes pageBB boxes).2.fuel = false := by
+  have hc := gtbLoop_cinv (gtbFuel boxes.length) _ (gtbInit_cinv pageBB boxes)
+  refine ⟨hc.leaves, ?_, hc.noErr, groupTextboxes_fuel pageBB boxes⟩
+  intro n hn
+  simp only [groupTextboxes, List.mem_filterMap] at hn
+  obtain ⟨o, _, ho⟩ := hn
+  exact hc.wf n (List.mem_of_getElem? ho)
 
 end PdfVerif.Layout
